@@ -14,6 +14,7 @@ for d in seeded/*/; do b=$(basename "$d"); want=fail
   if grep -q '"detected_by": *"NOT detected' "${d}meta.json" 2>/dev/null; then want=miss; fi
   echo "$want ${b:0:3} $PWD/${d}patch.diff" >> "$list"; done
 for p in selftest/benign/*.patch; do [ -e "$p" ] || continue; b=$(basename "$p"); echo "pass ${b:0:3} $PWD/$p" >> "$list"; done
+for p in selftest/benign_known_alarm/*.patch; do [ -e "$p" ] || continue; b=$(basename "$p"); echo "knownalarm ${b:0:3} $PWD/$p" >> "$list"; done
 run_one() {
   want="$1"; id="$2"; patch="$3"
   out=$(timeout 1200 tools/mutant_run.sh "$patch" "$id" 2>&1); code=$?
@@ -21,6 +22,8 @@ run_one() {
   first=$(echo "$out" | grep '^VIOLATION' | head -1 | sed 's/.*obligation=//' | cut -c1-90)
   if [ "$want" = miss ]; then
     if [ $code -eq 1 ] && [ $vio -gt 0 ]; then echo "OK   caught-after-all  $id $(basename $(dirname $patch))/$(basename $patch)  [$first]"; else echo "OK   known-miss  $id $(basename $(dirname $patch))/$(basename $patch)  (documented in its meta.json)"; fi
+  elif [ "$want" = knownalarm ]; then
+    if [ $code -eq 0 ] && [ $vio -eq 0 ]; then echo "OK   quiet-after-all  $id $(basename $patch)"; else echo "OK   known-false-alarm  $id $(basename $patch)  (documented in selftest/benign_known_alarm/README.txt) [$first]"; fi
   elif [ "$want" = fail ]; then
     if [ $code -eq 1 ] && [ $vio -gt 0 ]; then echo "OK   caught  $id $(basename $(dirname $patch))/$(basename $patch)  [$first]"; else echo "BAD  MISSED  $id $patch (exit $code)"; fi
   else
